@@ -1,5 +1,5 @@
 import Bluebell.Convert
-import Bluebell.Lemmas.PegTerm
+import Bluebell.Lemmas.AknWF
 /-!
 # C01 — conversion is total
 
@@ -79,8 +79,7 @@ regenerated grammar with parser.py's override in place.  `peg_terminates` is gen
 any text).  A grammar edit that introduces left recursion (a `RecursionError` in `akn.py`) or a
 `*`/`+` whose body can match the empty string (an endless loop) makes the first theorem fail. -/
 
-theorem C01_grammar_certificate : wfG aknExec aknNullable aknRanks aknRankTop = true := by
-  decide +kernel
+theorem C01_grammar_certificate : wfG aknExec aknNullable aknRanks aknRankTop = true := akn_wf
 
 /-- every rule of the grammar, on every text, from every offset: the interpreter answers -/
 theorem C01_parser_terminates (inp : Array Char) (root : String) (h : (aknExec.lookup root).isSome)
